@@ -45,6 +45,10 @@ def value(v):
                 raise Undefined("ill-conditioned")
         if abs(x - y) > mp.mpf(10) ** -11 * max(1, abs(x)) + mp.mpf(10) ** -13 * m:
             raise Undefined("ill-conditioned")
+        if m > mp.mpf(10) ** 9 * max(1, abs(x)):
+            # an intermediate value many orders of magnitude above the result (tan near its pole, ...): the
+            # float evaluation of the implementation cannot be expected to agree
+            raise Undefined("ill-conditioned")
     return x, m
 
 
